@@ -2,6 +2,7 @@ import Acv.Driver.Decode
 import Acv.Driver.ParseOp
 import Acv.Driver.FrontEndOp
 import Acv.Driver.TraceOp
+import Acv.Driver.MilestonesOp
 import Acv.Model.PipelineChecks
 import Acv.Model.Report
 import Acv.Model.Cli
@@ -329,6 +330,7 @@ def runOp (j : Json) : R Json := do
   | "c05" => opC05 j
   | "c05s" => opC05s j
   | "parse" => opParse j
+  | "ms" => opMs j
   | op => throw s!"unknown op {op}"
 
 def handleLine (line : String) : String :=
